@@ -3,6 +3,7 @@ import MM.Props.C07C18
 #print axioms MM.Numeric.C07_fixed_order
 #print axioms MM.Numeric.C07_fixed_equivariant
 #print axioms MM.Numeric.C07_scenario
+#print axioms MM.Numeric.C07_scenario_signed_sum_fails
 #print axioms MM.Numeric.C07_fixed_order_bundle
 #print axioms MM.Numeric.quantile_nonpos
 #print axioms MM.Numeric.quantile_nonneg
